@@ -255,7 +255,7 @@ def rule_o3_put(ctx, facts, as_rule="O3"):
     an = anchors(facts)
     boxed = [c for c in put.calls if callee_str(c).endswith("reclaim::Shared::boxed") and c.callee["substs"] and c.callee["substs"][-1] == "V" and not put.is_cleanup(c.b)]
     if len(boxed) != 1:
-        ctx.inst(as_rule, put, "value typestate", put.span, False, "expected exactly one Shared::boxed::<V> in put, found %d" % len(boxed))
+        ctx.fail_closed("%s: expected exactly one Shared::boxed::<V> in put, found %d" % (as_rule, len(boxed)))
         return
     V = fl.copies_of(boxed[0].dst_local())
     publish_calls, publish_edges, return_calls = {}, {}, {}
@@ -302,8 +302,8 @@ def rule_o3_put(ctx, facts, as_rule="O3"):
             if ts != "owned":
                 spec.err(Point(outer, 0), "the retry loop is re-entered with the value already %s" % ts)
     n_sites = len(publish_calls) + len(publish_edges) + len(return_calls)
-    if n_sites < 7:
-        ctx.inst(as_rule, put, "value typestate", put.span, False, "expected 4 publication and 3 refusal sites in put, found %d" % n_sites)
+    if n_sites < 7 and not spec.errors:
+        ctx.fail_closed("%s: expected 4 publication and 3 refusal sites in put, found %d" % (as_rule, n_sites))
         return
     if spec.errors:
         for (pt, why) in list(spec.errors)[:3]:
@@ -369,8 +369,11 @@ class ValueRetireSpec(Spec):
 
 def rule_o4(ctx, facts):
     an = anchors(facts)
-    for name in ("map::HashMap::compute_if_present", "map::HashMap::replace_node"):
-        b = facts.body(name)
+    from .rules_c05 import find_removal_bodies
+    rbodies = [b for b, _, _ in find_removal_bodies(facts)]
+    if len(rbodies) < 2:
+        ctx.fail_closed("O4: expected at least two bodies that unlink entries, found %d" % len(rbodies))
+    for b in rbodies:
         fl = flow(b)
         unlink, rtn_calls, rtn_edges, vret = {}, {}, {}, set()
         for c in b.calls:
@@ -402,8 +405,8 @@ def rule_o4(ctx, facts):
         spec = ValueRetireSpec(b, unlink, rtn_calls, rtn_edges, vret)
         Esp(b, spec).run()
         n = len(unlink) + len(rtn_calls)
-        if n < 2 or not vret:
-            ctx.inst("O4", b, "removed value retired once", b.span, False, "expected unlink/removal sites and value retires, found %d/%d" % (n, len(vret)))
+        if (n < 2 or not vret) and not spec.errors:
+            ctx.fail_closed("O4: expected unlink/removal sites and value retires in %s, found %d/%d" % (strip_generics(b.id), n, len(vret)))
             continue
         if spec.errors:
             for (pt, why) in list(spec.errors)[:3]:
